@@ -3,14 +3,20 @@
 Theorems: Props/C11.lean (on Model/Builder.lean).  Each case is one logical toolpath (absolute waypoints and
 shapes on the dyadic grid) executed twice on the real builder - in absolute mode with coordinates, in relative
 mode with the corresponding offsets - and the two machine-position sequences, reconstructed from the emitted
-bytes by an independent interpreter, are compared vertex by vertex.  Both runs also go through the model."""
+bytes by an independent interpreter, are compared vertex by vertex.  Both runs also go through the model.
+
+A further configuration dimension: the same pairs of runs with a coordinate transform (right-angle rotations, translate,
+scale, mirror, about a pivot or not) installed on the builder before the toolpath starts - random toolpaths of every
+shape, and rectilinear toolpaths traced one axis at a time on a small lattice, where a coordinate of the image of a
+waypoint often coincides with a coordinate of another waypoint.  The builder model has no transformer: those pairs are
+run on the implementation and judged by the oracle only (`xform` lines are harness-only)."""
 from __future__ import annotations
 
 from fractions import Fraction
 
 from . import builder_common as bc
 from . import core
-from .builder_impl import parse_record, show
+from .builder_impl import Impl, parse_record, show
 
 PROP = "C11"
 KEYS = bc.MOTION_KEYS
@@ -121,11 +127,173 @@ def shift_path(path, D):
     return (sh(start), [one(s) for s in segs], direction, res, box)
 
 
-def lines_for(path, relative: bool):
+# ------------------------------------------------------------------ transforms (implementation + oracle only)
+# exact right-angle blocks (row-major 3x3) for `chain_transform`; `rotate()` itself leaves cos(90 deg) = 6e-17 in the matrix
+BLOCKS = {"z+": (0, -1, 0, 1, 0, 0, 0, 0, 1), "z-": (0, 1, 0, -1, 0, 0, 0, 0, 1),
+          "x+": (1, 0, 0, 0, 0, -1, 0, 1, 0), "x-": (1, 0, 0, 0, 0, 1, 0, -1, 0),
+          "y+": (0, 0, 1, 0, 1, 0, -1, 0, 0), "y-": (0, 0, -1, 0, 1, 0, 1, 0, 0)}
+
+
+def gen_xform(r, unit=None):
+    """1-3 transform operations; `unit`: translations / pivots are multiples of it (so that images stay on the toolpath's lattice)"""
+    def vec():
+        if unit is not None:
+            return tuple(unit * r.randint(-2, 2) for _ in range(3))
+        return (fr(r, -6, 6), fr(r, -6, 6), fr(r, -6, 6) if r.random() < 0.6 else Fraction(0))
+    ops = []
+    for _ in range(r.choice([1, 1, 1, 2, 2, 3])):
+        k = r.choice(["rotate", "rotate", "rotate", "block", "translate", "scale", "mirror", "pivot"])
+        if k == "rotate":
+            ops.append(("rotate", Fraction(r.choice([90, 90, -90, -90, 270, -270, 180, -180, 0, 360])), r.choice("zzzxy")))
+        elif k == "block":
+            ops.append(("block", r.choice(sorted(BLOCKS))))
+        elif k == "translate":
+            ops.append(("translate", vec()))
+        elif k == "scale":
+            f = [Fraction(2), Fraction(1, 2), Fraction(-1), Fraction(3, 2), Fraction(4)]
+            ops.append(("scale", tuple(r.choice(f) for _ in range(r.choice([1, 1, 2, 3])))))
+        elif k == "mirror":
+            ops.append(("mirror", r.choice(["xy", "yz", "zx"])))
+        else:
+            ops.append(("pivot", vec()))
+    if ops[-1][0] == "pivot":           # a pivot only matters to what is chained after it
+        ops.append(("rotate", Fraction(r.choice([90, -90])), r.choice("zxy")))
+    return ops
+
+
+def xform_line(op):
+    k, a = op[0], op[1:]
+    if k == "rotate":
+        return f"xform rotate {show(a[0])} {a[1]}"
+    if k in ("block", "mirror"):
+        return f"xform {k} {a[0]}"
+    return f"xform {k} " + " ".join(show(v) for v in a[0])
+
+
+def apply_xform(g, line):
+    """configure the builder's transformer through its public methods"""
+    import numpy as np
+    ws = line.split()
+    k, a = ws[1], ws[2:]
+    f = lambda v: float(Fraction(v))
+    t = g.transform
+    if k == "rotate":
+        t.rotate(f(a[0]), a[1])
+    elif k == "block":
+        m = np.eye(4)
+        m[:3, :3] = np.array(BLOCKS[a[0]], dtype=float).reshape(3, 3)
+        t.chain_transform(m)
+    elif k == "translate":
+        t.translate(*[f(v) for v in a])
+    elif k == "scale":
+        t.scale(*[f(v) for v in a])
+    elif k == "mirror":
+        t.mirror(a[0])
+    elif k == "pivot":
+        t.set_pivot(tuple(f(v) for v in a))
+    else:
+        raise RuntimeError("harness: unknown transform " + line)
+
+
+def run_impl_any(lines):
+    """`bc.run_impl`, also for histories with `xform` lines (configuration only: they write nothing and have no record)"""
+    if not any(ln.startswith("xform ") for ln in lines):
+        return bc.run_impl(lines)
+    im = Impl(5)
+    im.dp0, im.cfg, im.lower = 5, {}, False
+    out_lines, recs = [], []
+    for ln in lines:
+        if ln.startswith("xform "):
+            apply_xform(im.g, ln)
+        elif ln.startswith("trace "):
+            for l2, rec in im.apply_trace(ln):
+                out_lines.append(l2)
+                recs.append(rec)
+        else:
+            l2, rec = im.apply(ln)
+            out_lines.append(l2)
+            recs.append(rec)
+    while im.ctx:
+        try:
+            im.ctx.pop().__exit__(None, None, None)
+        except Exception:
+            pass
+    return out_lines, recs, im
+
+
+def gen_lattice_path(R):
+    """a rectilinear toolpath on a small lattice (a few multiples of one unit per axis), traced mostly one axis at a time
+    - the way hand-written programs trace rectangles and staircases: images of waypoints under a right-angle transform
+    land on coordinates of other waypoints"""
+    r = R.rng
+    unit = Fraction(r.choice([1, 2, 5, 10, 16, 25])) if r.random() < 0.6 else Fraction(r.randint(1, 8 * G), G)
+    mult = r.choice([[0, 1], [0, 1, 2], [-1, 0, 1], [-2, -1, 0, 1, 2], [-1, 0, 1, 2]])
+    pool = [unit * m for m in mult]
+    start = tuple(r.choice(pool) for _ in range(3))
+    cur = start
+    segs = []
+    for _ in range(r.randint(3, 9)):
+        axes = [r.randrange(3)] if r.random() < 0.8 else r.sample(range(3), 2)
+        t = [None, None, None]
+        for i in axes:
+            other = [v for v in pool if v != cur[i]]
+            t[i] = r.choice(other) if r.random() < 0.9 else cur[i]
+        t = tuple(t)
+        k = r.choice(["move", "move", "move", "rapid", "rapid", "ctx"])
+        segs.append((k, t, r.choice(["abs", "rel"]) if k == "ctx" else None))
+        cur = tuple(c if v is None else v for c, v in zip(cur, t))
+    return (start, segs, r.choice(["cw", "ccw"]), Fraction(1)), unit
+
+
+def no_bypass(path):
+    """the toolpath with its absolute-bypass moves (which by-pass the transform by contract) turned into plain moves"""
+    def one(seg):
+        k, t, extra = seg[:3]
+        if k in ("moveabs", "rapidabs"):
+            return (k[:-3], t, extra)
+        if k == "ctxnest":
+            return ("polyline", list(t), None)
+        return seg
+    return (path[0], [one(s) for s in path[1]]) + tuple(path[2:])
+
+
+def L(*xyz):
+    return tuple(None if v is None else Fraction(v) for v in xyz)
+
+
+# hand-written members of the family: (transform, toolpath)
+XF_CORPUS = [
+    # a 4 x 4 rectangle traced one axis at a time, the work piece turned a quarter clockwise
+    ([("rotate", Fraction(-90), "z")],
+     (L(0, 0, 0), [("move", L(4, None, None), None), ("move", L(None, 4, None), None), ("move", L(0, None, None), None),
+                   ("move", L(None, 0, None), None)], "cw", Fraction(1))),
+    # a staircase in the YZ plane, quarter turn about x chained after a shift
+    ([("translate", L(0, 3, 0)), ("block", "x+")],
+     (L(1, 0, 3), [("rapid", L(None, None, 6), None), ("move", L(None, 3, None), None), ("move", L(None, None, 0), None),
+                   ("move", L(None, 6, None), None), ("rapid", L(2, None, None), None)], "ccw", Fraction(1))),
+    # mirrored and turned about a pivot, legs inside mode contexts
+    ([("mirror", "yz"), ("pivot", L(5, 5, 0)), ("rotate", Fraction(90), "z")],
+     (L(5, 0, 0), [("ctx", L(None, 5, None), "abs"), ("move", L(10, None, None), None), ("ctx", L(None, 10, None), "rel"),
+                   ("move", L(0, None, None), None), ("move", L(None, 0, None), None)], "cw", Fraction(1))),
+]
+
+
+def lines_for(path, relative: bool, xf=None):
     start, segs, direction, res = path[:4]
     box = path[4] if len(path) > 4 else (-1000, -1000, -1000, 1000, 1000, 1000)
-    out = ["boundsaxes " + " ".join(show(Fraction(v)) for v in box),
-           "setaxis x=%s y=%s z=%s" % tuple(show(v) for v in start), "dir " + direction, "res " + show(res)]
+    out = ["boundsaxes " + " ".join(show(Fraction(v)) for v in box)]
+    if xf is None:
+        out += ["setaxis x=%s y=%s z=%s" % tuple(show(v) for v in start), "dir " + direction, "res " + show(res)]
+    else:
+        # the transform is configured once, before the toolpath; an all-axes move in the builder's initial (absolute) mode then
+        # takes the machine to the image of the start, where machine and builder agree - only then is the mode chosen.
+        # (`set_axis` and the absolute-bypass moves are documented to by-pass the transform: after one of them the machine
+        # is not at transform(position) and relative offsets start from elsewhere - such toolpaths carry no claim here)
+        ops, preset = xf
+        out += [xform_line(o) for o in ops] + ["dir " + direction, "res " + show(res)]
+        if preset is not None:
+            out.append("setaxis x=%s y=%s z=%s" % tuple(show(v) for v in preset))
+        out.append("rapid x=%s y=%s z=%s" % tuple(show(v) for v in start))
     if relative:
         out.append("dist rel")
     cur = list(start)
@@ -219,7 +387,7 @@ def lines_for(path, relative: bool):
             out.append("enter " + extra)
             out.append("move " + pt(arg(t, inner_rel)))
             out.append("exit")
-            cur = list(t)
+            cur = [c if v is None else v for c, v in zip(cur, t)]
         relative = outer
     return out
 
@@ -253,10 +421,10 @@ def machine_positions(recs):
     return seq
 
 
-def run_case(R, path, label):
-    la, lb = lines_for(path, False), lines_for(path, True)
-    A = bc.run_impl(la)
-    B = bc.run_impl(lb)
+def run_case(R, path, label, xf=None):
+    la, lb = lines_for(path, False, xf), lines_for(path, True, xf)
+    A = run_impl_any(la)
+    B = run_impl_any(lb)
     sa, sb = machine_positions(A[1]), machine_positions(B[1])
     case = {"absolute": la, "relative": lb}
     outs_a = [parse_record(r)["out"] for r in A[1]]
@@ -277,6 +445,12 @@ def run_case(R, path, label):
             break
     if any(o != "ok" for o in outs_a) != any(o != "ok" for o in outs_b):
         R.fail(case, f"one run raised, the other did not: {set(outs_a)} vs {set(outs_b)}", tag="outcome")
+    if xf is not None:
+        # the builder model has no transformer: implementation + oracle only
+        R.case({"absolute": la, "relative": lb, "motions": len(sa)}, nontrivial=len(sa) >= 3, validated=False)
+        R.count(label, "xf-pairs(impl+oracle only)", *["xf:" + o[0] for o in xf[0]],
+                *["seg:" + (s[0] if s[0] != "ctxshape" else f"ctxshape:{s[1][0]}") for s in path[1]])
+        return
     # both runs through the model
     model = bc.run_model([A[0], B[0]])
     for (lines, recs, _), mrecs, which in ((A, model[0], "absolute"), (B, model[1], "relative")):
@@ -297,8 +471,24 @@ def run(R: core.Run):
               "non-trivial = at least 3 motions; distinct by hash")
     R.assumptions = ["waypoints on the dyadic grid so that both runs hand the tracer identical absolute parameters",
                      "relative output accumulates at most half a unit of the 5th decimal per word (tolerance grows with the count)"]
+    R.rule += ("; plus the same pairs under a transform configured before the toolpath (1-3 of rotate by multiples of 90 deg / exact "
+               "right-angle block / translate / scale / mirror / set_pivot): random toolpaths and rectilinear one-axis-at-a-time "
+               "toolpaths on a small lattice - implementation and oracle only")
+    R.assumptions.append("under a transform the toolpath begins with an all-axes absolute-bypass move to its start (machine and "
+                         "builder agree from there on); the model is not consulted for these pairs")
+    for ops, path in XF_CORPUS:
+        run_case(R, path, "corpus-xf", (ops, None))
     for _ in range(R.n(250, 5000)):
         run_case(R, gen_path(R), "random")
+    r = R.rng
+    for _ in range(R.n(120, 2500)):
+        path, unit = gen_lattice_path(R)
+        preset = tuple(unit * r.randint(-2, 2) for _ in range(3)) if r.random() < 0.3 else None
+        run_case(R, path, "lattice-xf", (gen_xform(r, unit), preset))
+    for _ in range(R.n(40, 1000)):
+        path = no_bypass(gen_path(R))
+        preset = (fr(r), fr(r), fr(r)) if r.random() < 0.3 else None
+        run_case(R, path, "random-xf", (gen_xform(r), preset))
     return {}, {}
 
 
@@ -308,12 +498,12 @@ def replay(data):
     bad = 0
     for which in ("absolute", "relative"):
         if which in case:
-            lines, recs, im = bc.run_impl(case[which])
+            lines, recs, im = run_impl_any(case[which])
             print(which, len(machine_positions(recs)), "motions; last:", machine_positions(recs)[-1:] )
     if "history" in case:
         return bc.replay(data, KEYS)
     if "absolute" in case:
-        a = machine_positions(bc.run_impl(case["absolute"])[1])
-        b = machine_positions(bc.run_impl(case["relative"])[1])
+        a = machine_positions(run_impl_any(case["absolute"])[1])
+        b = machine_positions(run_impl_any(case["relative"])[1])
         bad = len(a) != len(b) or any(abs((pa[x] or 0) - (pb[x] or 0)) > Fraction(1, 100) for (pa, _), (pb, _) in zip(a, b) for x in "XYZ")
     return 1 if bad else 0
